@@ -113,6 +113,8 @@ type FnCtx struct {
 	strSrc       map[string][3]string // string made from bytes: row, offset, length
 	litText      map[string]string    // string literal constant -> its text
 	canaryNext   bool
+	stridSeen    map[string]bool
+	defs         map[string]string // name -> defining term (define-fun and atoms)
 	bounded      int // > 0: bounded stand-in run, loops explored up to this many iterations
 }
 
@@ -133,6 +135,7 @@ type frame struct {
 	unrolling map[*loopInfo]bool
 	deferArgs []callArgs
 	lastLine  int
+	loopEntrySt map[*loopInfo]*State // state in which each cut loop was entered
 }
 
 type loopInfo struct {
@@ -165,6 +168,10 @@ func (c *FnCtx) def(prefix, sort, term string) string {
 
 func (c *FnCtx) defAlways(prefix, sort, term string) string {
 	n := c.fresh(prefix)
+	if c.defs == nil {
+		c.defs = map[string]string{}
+	}
+	c.defs[n] = term
 	c.emit(fmt.Sprintf("(define-fun %s () %s %s)", n, sort, term))
 	return n
 }
